@@ -479,7 +479,8 @@ def semantic_mutants(tok, raw, ver):
     if tok in ("CH", "SH", "HRR", "EE"):
         # every extension of the hello, payload replaced: empty / zeros / header kept + zeros / first half / one zero byte
         for et in hello_ext_types(tok, raw):
-            for how in ("empty", "zeros", "zerotail", "half", "byte0", "ones"):
+            # (vec0 / vec0x3: a length prefix of two / three bytes announcing an empty list)
+            for how in ("empty", "zeros", "zerotail", "half", "byte0", "ones", "vec0", "vec0x3"):
                 out.append(("ext-%d-%s" % (et, how), None))
     return out
 
@@ -519,7 +520,8 @@ def object_mutant(name, raw):
                     full = bytes(e.write())
                     pl = full[4:]
                     npl = {"empty": b"", "zeros": bytes(len(pl)), "zerotail": pl[:2] + bytes(max(0, len(pl) - 2)),
-                           "half": pl[:len(pl) // 2], "byte0": b"\x00", "ones": b"\x01" * len(pl)}[how]
+                           "half": pl[:len(pl) // 2], "byte0": b"\x00", "ones": b"\x01" * len(pl),
+                           "vec0": b"\x00\x00", "vec0x3": b"\x00\x00\x00"}[how]
                     if npl == pl:
                         return None
                     e = TLSExtension(extType=et).create(bytearray(npl))
@@ -622,10 +624,10 @@ def run(tier):
     F = FL.flavour
     flavs = [F(3, "ecdhe_rsa"), F(4, "tls13"), F(3, "dhe_rsa", reqCert="cert"), F(1, "rsa"), F(3, "srp_sha"), F(4, "tls13", reqCert="cert"),
              F(4, "tls13_ecdsa", dc="ecdsa"), F(3, "dhe_dsa", reqCert="cert", ccred="c_dsa"),
-             F(3, "ecdhe_ecdsa", ticket=True), F(0, "dhe_rsa"), F(4, "tls13", hrr=True), F(4, "tls13", resume="psk", tickets13=1),
+             F(4, "tls13", hrr=True), F(3, "ecdhe_ecdsa", ticket=True), F(0, "dhe_rsa"), F(4, "tls13", resume="psk", tickets13=1),
              F(3, "rsa", resume="id"), F(2, "dh_anon"), F(3, "ecdhe_rsa", npn=True, reqCert="nocert")]
     if tier == "quick":
-        flavs = flavs[:8]
+        flavs = flavs[:9]
     with Pool(16) as pool:
         refs = pool.map(reference, [(i, f, r) for i, f in enumerate(flavs) for r in ("c", "s")])
     rnd = random.Random(repr((env.SEED, "c08")))
